@@ -25,6 +25,11 @@ import (
 //	kind 8  harness Poisson distribution, mean P, on A + B*{0,1,2,...}; Bounds = support start and
 //	        A + B*ceil(P + Xs[0]*sqrt(P))
 //
+//	kind 9  harness MIXED distribution with infinite support: an atom of weight P at A and an exponential
+//	        tail of scale B beyond it; Bounds (A, A + 20 B) cut the tail at e^-20
+//	kind 10 harness two-sided power-law distribution (continuous, heavy tails): location A, scale B,
+//	        tail exponent P (0.01: the 97.5% quantile is 1e130 scales out); Bounds A -+ 100 B
+//
 // c07Wrap forwards only CDF and Bounds: it has no quantile method, no Rand, no Step, so stats.InvCDF
 // and stats.Rand must take the generic path through it.  For a built-in WITHOUT its own quantile
 // method stats.InvCDF(d)(y) has to be bit-identical to stats.InvCDF(c07Wrap{d})(y); for one WITH a
@@ -87,6 +92,30 @@ func (d *c07Pois) PMF(x float64) float64 {
 }
 func (d *c07Pois) Step() float64              { return d.s }
 func (d *c07Pois) Bounds() (float64, float64) { return d.bl, d.bh }
+
+type c07ExpAtom struct{ a, s, w float64 }
+
+func (d c07ExpAtom) CDF(x float64) float64 {
+	if !(x >= d.a) {
+		return 0
+	}
+	return 1 - (1-d.w)*math.Exp(-(x-d.a)/d.s)
+}
+func (d c07ExpAtom) Bounds() (float64, float64) { return d.a, d.a + 20*d.s }
+
+type c07Power struct{ a, s, alpha float64 }
+
+func (d c07Power) CDF(x float64) float64 {
+	z := (x - d.a) / d.s
+	switch {
+	case z >= 0:
+		return 1 - 0.5*math.Pow(1+z, -d.alpha)
+	case z < 0:
+		return 0.5 * math.Pow(1-z, -d.alpha)
+	}
+	return math.NaN()
+}
+func (d c07Power) Bounds() (float64, float64) { return d.a - 100*d.s, d.a + 100*d.s }
 
 var _ stats.DiscreteDist = (*c07Geom)(nil)
 var _ stats.DiscreteDist = (*c07Pois)(nil)
@@ -202,6 +231,18 @@ func c07RelDist(c *c07Case) (stats.DistCommon, error) {
 		}
 		d.bl, d.bh = a, a+s*math.Ceil(lam+w*math.Sqrt(lam))
 		return d, nil
+	case 9:
+		a, sc, w := float64(c.A), float64(c.B), float64(c.P)
+		if !fin(a, sc) || math.Abs(a) > 1e100 || !(sc >= 1e-100 && sc <= 1e100) || !(w >= 0 && w < 1) {
+			return nil, fmt.Errorf("bad exponential parameters")
+		}
+		return c07ExpAtom{a: a, s: sc, w: w}, nil
+	case 10:
+		a, sc, al := float64(c.A), float64(c.B), float64(c.P)
+		if !fin(a, sc) || math.Abs(a) > 1e100 || !(sc >= 1e-100 && sc <= 1e100) || !(al >= 0.005 && al <= 100) {
+			return nil, fmt.Errorf("bad power-law parameters")
+		}
+		return c07Power{a: a, s: sc, alpha: al}, nil
 	}
 	return nil, fmt.Errorf("bad kind")
 }
